@@ -17,7 +17,8 @@
   identity; so "non-live arguments" are in scope, not excluded.  (What the Rust does with a
   stale `NodeId` is below this model: handles here are creation-order numbers.)
 -/
-import XotModel.Lemmas.FinvClone
+import XotModel.Lemmas.FinvReach2
+import XotModel.Lemmas.FinvStable
 
 namespace XotModel.Props
 open XotModel
@@ -232,7 +233,7 @@ theorem C04_fresh_handle (f : Forest) (v : Value) (hi : f.Inv) :
 
 /-! ### Histories -/
 
-/-- One step: every call in `Op.core` (everything except `replace` and `clone_node`) preserves the
+/-- One step: every call in `Op.core` (everything except `replace`) preserves the
     invariant, whatever its arguments and outcome. -/
 theorem C04_step (f : Forest) (o : Op) (h : f.Inv) (hc : o.core = true) : (f.step o).Inv :=
   Forest.step_inv h o hc
@@ -309,9 +310,21 @@ theorem C04_cloneNode_partial (f : Forest) (node : Nat) (h : f.Inv) (hne : f.isE
 
 /-- `clone_node` of an element, under the decidable guard `Forest.cloneTopOK`: after the replay
     the temporary top element is still parentless and has at most one child, which is what the
-    final indextree `remove` of the top needs.  That the guard always holds is not proved. -/
+    final indextree `remove` of the top needs. -/
 theorem C04_cloneNode_guarded (f : Forest) (node : Nat) (h : f.Inv) (hok : f.cloneTopOK node = true) :
     (f.cloneNode node).1.Inv := Forest.cloneNode_inv_of_topOK h node hok
+
+/-- The guard always holds under the invariant (the argument of the C06 lemmas: during the replay
+    nothing but the clone's root is ever given the scratch element as parent, and the scratch
+    element keeps having no parent). -/
+theorem C04_cloneTopOK (f : Forest) (node : Nat) (h : f.Inv) : f.cloneTopOK node = true :=
+  Forest.cloneTopOK_of_inv h node
+
+/-- `clone_node`: full statement. -/
+theorem C04_cloneNode (f : Forest) (node : Nat) (h : f.Inv) : (f.cloneNode node).1.Inv :=
+  Forest.cloneNode_inv h node
+
+theorem C04_cloneNodeStatement_holds : C04_cloneNodeStatement := fun f n h => C04_cloneNode f n h
 
 /-- Non-vacuity: a strict forest with a gap (`<a>x<b/>y</a>`, `b` between two texts) and one
     without; the unproved region is not empty and the model keeps the invariant there on these
@@ -323,5 +336,53 @@ example : (gapForest.replace 2 5).1.inv = true := by decide
 example : (gapForest.replace 1 5).1.inv = true := by decide
 example : (gapForest.elementWrap 2 9).1.inv = true := by decide
 example : gapForest.cloneTopOK 0 = true := by decide
+
+/-! ### A handle keeps denoting the same value
+
+For creation, the four moves, `detach` and `remove`: a live node that is not text and does not lie
+in the subtree the call moves or removes has the same value afterwards (so it is still live).
+Text nodes are excluded on purpose: text consolidation rewrites the content of the text node next
+to the old or the new site, so for a text node only "still a text node, or merged away" holds.
+The setters change exactly the value of their target (`C04_setValue`); the remaining composite
+calls are not covered by a stability theorem. -/
+
+theorem C04_value_stable_newNode (f : Forest) (w : Value) (h : Nat) (v : Value)
+    (hv : f.value? h = some v) : (f.newNode w).1.value? h = some v :=
+  Forest.value_stable_newNode f w hv
+
+theorem C04_value_stable_append (f : Forest) (p c h : Nat) (v : Value) (hi : f.Inv)
+    (hv : f.value? h = some v) (hnt : v.isText = false) (hc : c ∉ f.ancestors h) :
+    (f.append p c).1.value? h = some v :=
+  Forest.value_stable_of_outcome (Forest.append_outcome hi.toW p c) hv hnt hc
+
+theorem C04_value_stable_prepend (f : Forest) (p c h : Nat) (v : Value) (hi : f.Inv)
+    (hv : f.value? h = some v) (hnt : v.isText = false) (hc : c ∉ f.ancestors h) :
+    (f.prepend p c).1.value? h = some v :=
+  Forest.value_stable_of_outcome (Forest.prepend_outcome hi.toW p c) hv hnt hc
+
+theorem C04_value_stable_insertAfter (f : Forest) (r n h : Nat) (v : Value) (hi : f.Inv)
+    (hv : f.value? h = some v) (hnt : v.isText = false) (hc : n ∉ f.ancestors h) :
+    (f.insertAfter r n).1.value? h = some v :=
+  Forest.value_stable_of_outcome (Forest.insertAfter_outcome hi.toW r n) hv hnt hc
+
+theorem C04_value_stable_insertBefore (f : Forest) (r n h : Nat) (v : Value) (hi : f.Inv)
+    (hv : f.value? h = some v) (hnt : v.isText = false) (hc : n ∉ f.ancestors h) :
+    (f.insertBefore r n).1.value? h = some v :=
+  Forest.value_stable_of_outcome (Forest.insertBefore_outcome hi.toW r n) hv hnt hc
+
+theorem C04_value_stable_remove (f : Forest) (n h : Nat) (v : Value) (hi : f.Inv)
+    (hv : f.value? h = some v) (hnt : v.isText = false)
+    (hsub : ∀ t, f.get? n = some t → h ∉ HTree.handles t) : (f.remove n).1.value? h = some v :=
+  Forest.value_stable_remove hi n hv hnt hsub
+
+theorem C04_value_stable_detach (f : Forest) (n h : Nat) (v : Value) (hi : f.Inv)
+    (hv : f.value? h = some v) (hnt : v.isText = false)
+    (hsub : ∀ t, f.get? n = some t → h ∉ HTree.handles t) : (f.detach n).1.value? h = some v :=
+  Forest.value_stable_detach hi n hv hnt hsub
+
+/-- Non-vacuity, and the reason text is excluded: removing `b` from `<a>x<b/>y</a>` keeps the value
+    of `a` and rewrites the text `x`. -/
+example : (gapForest.remove 2).1.value? 0 = some (.element 1) ∧
+    (gapForest.remove 2).1.value? 1 = some (.text ['x', 'y']) := by decide
 
 end XotModel.Props
